@@ -66,7 +66,8 @@ def _run_one(args):
             with open(p, 'w', encoding='utf-8') as fh:
                 fh.write(s.replace(ed['old'], ed['new']))
             try:
-                compile(open(p, encoding='utf-8').read(), p, 'exec')
+                if p.endswith('.py'):
+                    compile(open(p, encoding='utf-8').read(), p, 'exec')
             except SyntaxError as e:
                 return mu['id'], 'bad-mutant', f'mutant does not compile: {e}'
         os.environ['SA_EVIDENCE_DIR'] = os.path.join(tmp, 'evidence')
